@@ -113,7 +113,14 @@ fn main() {
             let f = args.get(2).cloned().unwrap_or_else(|| usage());
             // a single case: minutes at most (C19 cells have their own per-worker watchdog)
             let limit = std::env::var("VERIF_REPLAY_LIMIT_SECS").ok().and_then(|s| s.parse().ok()).unwrap_or(600);
-            std::process::exit(marsim::runner::with_process_watchdog(limit, || marsim::props::replay_file(Path::new(&f))));
+            // on a thread with the same roomy native stack as the batch workers have
+            let code = std::thread::Builder::new()
+                .stack_size(256 << 20)
+                .spawn(move || marsim::runner::with_process_watchdog(limit, || marsim::props::replay_file(Path::new(&f))))
+                .expect("spawn replay thread")
+                .join()
+                .unwrap_or(2);
+            std::process::exit(code);
         }
         _ => usage(),
     }
